@@ -95,24 +95,88 @@ func vfC51GenRoutes(rt *rapid.T, bias []int) []vfC51Route {
 	return out
 }
 
+// vfC51GenScenario builds the remove / re-add skeleton around two clusters x, y
+// with drawn variations: k RPCs on x, x leaves the routes, (optionally) the
+// channel is parked inside UpdateState, x comes back, the RPCs on x commit, the
+// channel is released, a new RPC goes to x, x leaves again.
+func vfC51GenScenario(rt *rapid.T) vfC51Plan {
+	perm := rapid.Permutation([]int{0, 1, 2}).Draw(rt, "xy")
+	x, y := perm[0], perm[1]
+	one := func(c int) vfC51Route {
+		return vfC51Route{Clusters: []int{c}, Weights: []int{rapid.IntRange(1, 3).Draw(rt, "w")}}
+	}
+	p := vfC51Plan{Init: []vfC51Route{one(x)}}
+	add := func(op vfC51Op) { p.Ops = append(p.Ops, op) }
+	k := rapid.IntRange(1, 3).Draw(rt, "k")
+	for i := 0; i < k; i++ {
+		add(vfC51Op{Kind: "rpc", Method: rapid.IntRange(0, 2).Draw(rt, "m")})
+	}
+	add(vfC51Op{Kind: "push", Routes: []vfC51Route{one(y)}})
+	if rapid.Bool().Draw(rt, "noise_rpc") {
+		add(vfC51Op{Kind: "rpc", Method: 2})
+	}
+	hold := rapid.IntRange(0, 3).Draw(rt, "hold") > 0
+	if hold {
+		add(vfC51Op{Kind: "hold", Routes: []vfC51Route{one(y)}})
+	}
+	readd := rapid.IntRange(0, 4).Draw(rt, "readd") > 0
+	commitFirst := rapid.IntRange(0, 3).Draw(rt, "commit_first") == 0
+	commits := func() {
+		n := k
+		if rapid.IntRange(0, 3).Draw(rt, "partial") == 0 {
+			n = rapid.IntRange(0, k).Draw(rt, "ncommit")
+		}
+		for i := 0; i < n; i++ {
+			add(vfC51Op{Kind: "commit", RPC: 0, Twice: rapid.IntRange(0, 4).Draw(rt, "twice") == 0})
+		}
+	}
+	if commitFirst {
+		commits()
+	}
+	if readd {
+		add(vfC51Op{Kind: "push", Routes: []vfC51Route{one(x), one(y)}})
+	}
+	if !commitFirst {
+		commits()
+	}
+	if hold {
+		if rapid.Bool().Draw(rt, "rpc_held") {
+			add(vfC51Op{Kind: "rpc", Method: 2})
+		}
+		add(vfC51Op{Kind: "release"})
+	}
+	n := rapid.IntRange(0, 2).Draw(rt, "late_rpcs")
+	for i := 0; i < n; i++ {
+		add(vfC51Op{Kind: "rpc", Method: 0})
+	}
+	add(vfC51Op{Kind: "push", Routes: []vfC51Route{one(y)}})
+	if rapid.Bool().Draw(rt, "tail_rpc") {
+		add(vfC51Op{Kind: "rpc", Method: 1})
+	}
+	return p
+}
+
 func vfC51Gen(rt *rapid.T) vfC51Plan {
+	if rapid.IntRange(0, 9).Draw(rt, "mode") < 4 {
+		return vfC51GenScenario(rt)
+	}
 	var p vfC51Plan
 	p.Init = vfC51GenRoutes(rt, nil)
-	n := rapid.IntRange(4, vk.Pick(12, 40)).Draw(rt, "nops")
+	n := rapid.IntRange(6, vk.Pick(14, 40)).Draw(rt, "nops")
 	held := false
 	for i := 0; i < n; i++ {
-		kinds := []string{"rpc", "rpc", "rpc", "push", "push", "commit", "commit", "hold"}
+		kinds := []string{"rpc", "rpc", "rpc", "rpc", "rpc", "push", "push", "push", "commit", "commit", "hold"}
 		if held {
-			kinds = []string{"rpc", "push", "push", "commit", "commit", "commit", "release"}
+			kinds = []string{"rpc", "rpc", "push", "push", "commit", "commit", "commit", "release"}
 		}
 		op := vfC51Op{Kind: rapid.SampledFrom(kinds).Draw(rt, "kind")}
 		switch op.Kind {
 		case "rpc":
-			op.Method = rapid.IntRange(0, 2).Draw(rt, "method")
+			op.Method = rapid.SampledFrom([]int{0, 1, 2, 2, 2}).Draw(rt, "method")
 		case "push", "hold":
 			// a small pool makes removal and re-adding frequent; often a single cluster everywhere
 			var bias []int
-			if rapid.Bool().Draw(rt, "single") {
+			if rapid.IntRange(0, 3).Draw(rt, "single") > 0 {
 				bias = []int{rapid.IntRange(0, 2).Draw(rt, "only")}
 			}
 			op.Routes = vfC51GenRoutes(rt, bias)
@@ -209,7 +273,9 @@ type vfC51CC struct {
 	latest   iresolver.ConfigSelector
 	marker   int
 	children map[string]bool
-	errs     []error
+	// clusters referenced by the routes of the latest state's XDSConfig
+	routeClusters map[string]bool
+	errs          []error
 	holdNext bool
 	blocked  chan struct{} // closed when an UpdateState call is parked
 	release  chan struct{}
@@ -272,11 +338,19 @@ func (c *vfC51CC) UpdateState(s resolver.State) error {
 		}
 	}
 	cs := iresolver.GetConfigSelector(s)
+	rcl := map[string]bool{}
+	if xc := xdsresource.XDSConfigFromResolverState(s); xc != nil && xc.VirtualHost != nil {
+		for _, rt := range xc.VirtualHost.Routes {
+			for _, wc := range rt.WeightedClusters {
+				rcl[clusterPrefix+wc.Name] = true
+			}
+		}
+	}
 
 	c.sel.Lock()
 	c.mu.Lock()
 	c.log = append(c.log, ev)
-	c.latest, c.marker, c.children = cs, ev.marker, ev.children
+	c.latest, c.marker, c.children, c.routeClusters = cs, ev.marker, ev.children, rcl
 	c.mu.Unlock()
 	c.sel.Unlock()
 	select {
@@ -466,8 +540,24 @@ func vfC51Run(t *testing.T, p vfC51Plan) (res vk.Result) {
 		cc.log = append(cc.log, ev)
 		cc.mu.Unlock()
 	}
+	// released[X]: the last open RPC on X was committed while the selector the
+	// channel was using did not route to X any more, i.e. the resolver dropped its
+	// last reference (and its cluster subscription) for X at that moment.
+	released := map[string]bool{}
 	doCommit := func(i int, twice bool) {
 		r := rpcs[i]
+		others := 0
+		for _, j := range uncommitted() {
+			if j != i && rpcs[j].cluster == r.cluster {
+				others++
+			}
+		}
+		cc.mu.Lock()
+		inLatest := cc.routeClusters[r.cluster]
+		cc.mu.Unlock()
+		if others == 0 && !inLatest {
+			released[r.cluster] = true
+		}
 		logEv(vfC51Event{kind: "commit", rpc: i, cluster: r.cluster}) // logged before the effect
 		r.committed = true
 		r.commit()
@@ -576,8 +666,22 @@ func vfC51Run(t *testing.T, p vfC51Plan) (res vk.Result) {
 		return inconclusive("final_marker")
 	}
 	// first look at the log with the RPCs that are still open
-	if v := vfC51CheckLog(cc); v != "" {
-		return vk.Bad("%s", v)
+	verdict := func() *vk.Result {
+		v, dropped := vfC51CheckLog(cc)
+		if v == "" {
+			return nil
+		}
+		r := vk.Bad("%s", v)
+		if dropped != "" && released[dropped] {
+			// known shape: the resolver released its subscription for the cluster when
+			// the last RPC committed, then revived the not-yet-pruned entry for a
+			// route configuration that re-added the cluster
+			r.Sig = "c51.released_cluster_entry_revived"
+		}
+		return &r
+	}
+	if r := verdict(); r != nil {
+		return *r
 	}
 	for _, i := range uncommitted() {
 		doCommit(i, false)
@@ -587,8 +691,8 @@ func vfC51Run(t *testing.T, p vfC51Plan) (res vk.Result) {
 	}
 	want := cur
 	converged := cc.waitFor(func(m int, ch map[string]bool) bool { return m == marker && vfC51SameSet(ch, want) })
-	if v := vfC51CheckLog(cc); v != "" {
-		return vk.Bad("%s", v)
+	if r := verdict(); r != nil {
+		return *r
 	}
 	cc.mu.Lock()
 	nerr := len(cc.errs)
@@ -647,7 +751,7 @@ func vfC51Run(t *testing.T, p vfC51Plan) (res vk.Result) {
 // vfC51CheckLog replays the event log: every state handed to the channel must
 // keep (as a cluster-manager child, with usable cluster data) every cluster
 // picked by an RPC that was selected before and is not yet committed.
-func vfC51CheckLog(cc *vfC51CC) string {
+func vfC51CheckLog(cc *vfC51CC) (msg string, watchDropped string) {
 	cc.mu.Lock()
 	log := append([]vfC51Event(nil), cc.log...)
 	cc.mu.Unlock()
@@ -664,15 +768,15 @@ func vfC51CheckLog(cc *vfC51CC) string {
 			}
 			for rpc, cl := range open {
 				if !ev.children[cl] {
-					return fmt.Sprintf("event %d: service config pushed to the channel has children %s but RPC #%d routed to %s is not committed yet", i, vfC51Keys(ev.children), rpc, cl)
+					return fmt.Sprintf("event %d: service config pushed to the channel has children %s but RPC #%d routed to %s is not committed yet", i, vfC51Keys(ev.children), rpc, cl), ""
 				}
 				if !ev.xdsOK[cl] {
-					return fmt.Sprintf("event %d: state pushed to the channel keeps child %s for uncommitted RPC #%d but its XDSConfig has no usable cluster entry for it (clusters with data: %s): the cluster's CDS/EDS watch was dropped", i, cl, rpc, vfC51Keys(ev.xdsOK))
+					return fmt.Sprintf("event %d: state pushed to the channel keeps child %s for uncommitted RPC #%d but its XDSConfig has no usable cluster entry for it (clusters with data: %s): the cluster's CDS/EDS watch was dropped", i, cl, rpc, vfC51Keys(ev.xdsOK)), cl
 				}
 			}
 		}
 	}
-	return ""
+	return "", ""
 }
 
 func TestVerifC51(t *testing.T) {
